@@ -112,4 +112,154 @@ THEOREM SealNormal ==
     BY <2>2, <2>3
 <1>7. QED
   BY <1>3, <1>4, <1>5, <1>6
+
+(* purely linear facts with fresh constants (no products in the solver's context) *)
+LEMMA LinInside == ASSUME NEW x \in Nat, NEW y \in Nat, NEW f \in Nat, NEW t \in Nat, NEW m \in Nat, NEW s \in Nat,
+                          y + t <= m, f < t, s >= m
+                   PROVE x + y + f < x + s
+  BY SMT
+LEMMA LinZero == ASSUME NEW k \in Nat, k < 1 PROVE k = 0
+  BY SMT
+LEMMA LinUp == ASSUME NEW lo \in Nat, NEW t \in Nat, NEW ra \in Nat, NEW m \in Nat, t >= 1, lo + t - 1 >= m, ra >= t
+               PROVE lo + ra - m >= 1 /\ lo + ra = m + (lo + ra - m) /\ lo + ra - m \in Nat
+  BY SMT
+LEMMA LinGe == ASSUME NEW u \in Nat, NEW t \in Nat, ~(u < t) PROVE u >= t
+  BY SMT
+LEMMA LinLt == ASSUME NEW f \in Nat, NEW t \in Nat, NEW u \in Nat, f < t, u >= t PROVE f < u
+  BY SMT
+LEMMA LinWrap == ASSUME NEW a \in Nat, NEW m \in Nat, NEW f \in Nat, NEW u \in Nat, NEW lo \in Nat, NEW s \in Nat,
+                        lo < m, f < u, s = m + u
+                 PROVE a + lo <= a + m + 0 + f /\ a + m + 0 + f < a + s
+  BY SMT
+
+(* The inverted situation (words held back, the interval [lower, lower + range) wraps around 2^S): with Acc the value of the   *)
+(* written and held-back words (RangeCarry.tla) and tl = Acc * M + lower the start of the reference interval, the sealed data -  *)
+(* the held-back words with or without their carry, the top word pw of the (wrapped) point, the pinning zero words if needed -   *)
+(* followed by ANY continuation denotes a number inside the reference interval [tl, tl + range).                                 *)
+THEOREM SealInverted ==
+    ASSUME NEW T \in Nat, NEW B \in Nat, T >= 1, B >= 1,
+           NEW lower \in Nat, NEW range \in Nat, lower < T * B, range >= T, range < T * B, lower + range >= T * B,
+           NEW A \in Nat, NEW rest \in Nat, rest < T
+    PROVE  LET M == T * B
+               wrap == lower + T - 1 >= M                                   \* SealPoint(e) < e.lower: the held words take the carry
+               point == IF wrap THEN lower + T - 1 - M ELSE lower + T - 1
+               pw == point \div T
+               uw == (lower + range - M) \div T
+               value == (IF wrap THEN A + 1 ELSE A) * M + pw * T + (IF uw = pw THEN 0 ELSE rest)
+               tl == A * M + lower
+           IN tl <= value /\ value < tl + range /\ pw < B
+<1> DEFINE M == T * B
+<1> DEFINE wrap == lower + T - 1 >= M
+<1> DEFINE point == IF wrap THEN lower + T - 1 - M ELSE lower + T - 1
+<1> DEFINE pw == point \div T
+<1> DEFINE up == lower + range - M
+<1> DEFINE uw == up \div T
+<1> DEFINE fill == IF uw = pw THEN 0 ELSE rest
+<1>0. T > 0 /\ M \in Nat /\ M > 0 /\ A * M \in Nat /\ up \in Nat /\ point \in Nat /\ fill \in Nat /\ fill < T
+  BY SMT
+<1>1. point = T * pw + (point % T) /\ point % T < T /\ point % T \in Nat /\ pw \in Nat
+  BY <1>0, DivModFacts
+<1>2. pw * T = T * pw /\ pw * T \in Nat /\ pw * T <= point /\ point < pw * T + T
+  BY <1>1, SMT
+<1>3. CASE ~wrap
+  <2>1. point = lower + T - 1 /\ point < M
+    BY <1>3, <1>0, SMT
+  <2>2. lower <= pw * T
+    BY <2>1, <1>2, <1>0, SMT
+  <2>3. pw < B
+    <3>1. pw * T < B * T
+      <4>1. B * T = M
+        BY SMT
+      <4>2. QED
+        BY <4>1, <2>1, <1>2, <1>0, SMT
+    <3>2. SUFFICES ASSUME pw >= B PROVE FALSE
+      BY <1>1, SMT
+    <3>3. pw * T >= B * T
+      BY <3>2, <1>1, MulMono
+    <3>4. B * T \in Nat
+      BY SMT
+    <3>5. QED
+      BY <3>1, <3>3, <3>4, <1>2, SMT
+  <2>4. pw * T + T <= M
+    <3>1. pw + 1 <= B
+      BY <2>3, <1>1, SMT
+    <3>2. B * T >= (pw + 1) * T
+      <4>1. pw + 1 \in Nat /\ B >= pw + 1
+        BY <3>1, <1>1, SMT
+      <4>2. QED
+        BY <4>1, MulMono
+    <3>3. (pw + 1) * T = pw * T + T /\ B * T = M
+      BY <1>1, MulSucc, SMT
+    <3>4. QED
+      BY <3>2, <3>3
+  <2>5. A * M + lower <= A * M + pw * T + fill
+    BY <2>2, <1>0, <1>2, SMT
+  <2>6. A * M + pw * T + fill < A * M + lower + range
+    <3>1. A * M + pw * T + fill < A * M + (lower + range)
+      <4> DEFINE xx == A * M
+      <4> DEFINE yy == pw * T
+      <4> DEFINE ss == lower + range
+      <4>1. xx \in Nat /\ yy \in Nat /\ fill \in Nat /\ T \in Nat /\ M \in Nat /\ ss \in Nat /\ yy + T <= M /\ fill < T /\ ss >= M
+        BY <2>4, <1>0, <1>2
+      <4> HIDE DEF xx, yy, ss, fill, M
+      <4>2. xx + yy + fill < xx + ss
+        BY <4>1, LinInside
+      <4>3. QED
+        BY <4>2 DEF xx, yy, ss
+    <3>2. QED
+      BY <3>1, <1>0, SMT
+  <2>7. QED
+    BY <1>3, <2>3, <2>5, <2>6
+<1>4. CASE wrap
+  <2>1. point = lower + T - 1 - M /\ point < T
+    BY <1>4, <1>0, SMT
+  <2>2. pw = 0
+    <3>1. pw < 1
+      <4>1. point < 1 * T
+        BY <2>1, <1>0, SMT
+      <4>2. QED
+        BY <4>1, <1>0, DivLt
+    <3>2. QED
+      BY <3>1, <1>1, LinZero
+  <2>3. pw * T = 0
+    BY <2>2, <1>0, SMT
+  <2>4. (A + 1) * M = A * M + M
+    BY <1>0, MulSucc
+  <2>5. up >= 1 /\ lower + range = M + up
+    BY <1>4, <1>0, LinUp
+  <2>6. fill < up
+    <3>1. CASE uw = pw
+      BY <3>1, <2>5
+    <3>2. CASE uw # pw
+      <4>1. uw \in Nat
+        BY <1>0, DivModFacts
+      <4>2. uw >= 1
+        BY <3>2, <2>2, <4>1, SMT
+      <4>3. up >= T
+        <5>0. 1 * T = T
+          BY SMT
+        <5>1. SUFFICES ASSUME up < 1 * T PROVE FALSE
+          BY <5>0, <1>0, LinGe
+        <5>2. up \div T < 1
+          BY <5>1, <1>0, DivLt
+        <5>3. uw = 0
+          BY <5>2, <4>1, LinZero
+        <5>4. QED
+          BY <5>3, <4>2
+      <4>4. fill = rest
+        BY <3>2
+      <4>5. QED
+        BY <4>3, <4>4, <1>0, LinLt
+    <3>3. QED
+      BY <3>1, <3>2
+  <2>7. A * M + lower <= (A + 1) * M + pw * T + fill
+    BY <2>3, <2>4, <1>0, SMT
+  <2>8. (A + 1) * M + pw * T + fill < A * M + lower + range
+    BY <2>3, <2>4, <2>5, <2>6, <1>0, SMT
+  <2>9. pw < B
+    BY <2>2, SMT
+  <2>10. QED
+    BY <1>4, <2>7, <2>8, <2>9
+<1>5. QED
+  BY <1>3, <1>4
 =============================================================================
